@@ -62,6 +62,10 @@ struct Shared
   std::unique_ptr<BSpline<3, SE2d>> bspline;
   std::vector<double> fit_ts;
   std::vector<SE2d> fit_gs;
+  // trust-region step problems on shared const data: a well-posed sparse J, and a rank-deficient one (duplicated
+  // columns) that takes the solver's singular fallback path when lambda is at rounding level
+  Eigen::SparseMatrix<double> Jsp, Jsp_sing;
+  Eigen::VectorXd dsp, rsp;
 };
 
 static Shared make_shared_state(Rng & r)
@@ -98,6 +102,18 @@ static Shared make_shared_state(Rng & r)
   std::vector<SE2d> ctrl = {make_elem<SE2d>(gen_coeffs<double>(*l2, r, R_GENERIC, T_SMALL))};
   for (int i = 1; i < 12; ++i) ctrl.push_back(ctrl.back() + Eigen::Vector3d(0.3 * r.sym(), 0.3 * r.sym(), 0.3 * r.sym()));
   s.bspline = std::make_unique<BSpline<3, SE2d>>(0.5, 0.25, ctrl);
+  {
+    const int m = 30, n = 12;
+    Eigen::MatrixXd Jd = Eigen::MatrixXd::NullaryExpr(m, n, [&]() { return r.coin(0.4) ? r.sym() : 0.0; });
+    for (int j = 0; j < n; ++j) Jd(j, j) += 2;
+    s.Jsp = Jd.sparseView();
+    for (int j = n / 2; j < n; ++j) Jd.col(j) = Jd.col(j - n / 2);
+    s.Jsp_sing = Jd.sparseView();
+    s.Jsp.makeCompressed();
+    s.Jsp_sing.makeCompressed();
+    s.dsp = Eigen::VectorXd::NullaryExpr(n, [&]() { return 0.5 + r.uni(); });
+    s.rsp = Eigen::VectorXd::NullaryExpr(m, [&]() { return r.sym(); });
+  }
   s.fit_ts  = {0, 0.7, 1.1, 2.0, 2.9, 3.3};
   s.fit_gs  = std::vector<SE2d>(ctrl.begin(), ctrl.begin() + 6);
   return s;
@@ -208,6 +224,19 @@ static void work(const Shared & s, int it, unsigned mask, Digest & d, std::map<s
       d.grp(bs(1.3));
     }
     cnt("diff_minimize_fit");
+  }
+  if (mask & (16u | 32u)) {  // trust-region steps on shared const sparse / dense problems
+    static const double lams[] = {1e-4, 1.0, 0.0, 1e-18, 1e3};
+    const double lam = lams[it % 5];
+    double dphi = 0;
+    d.mat(solve_linear_ldlt(s.Jsp, s.dsp, s.rsp, std::max(lam, 1e-12), dphi));
+    d.num(dphi);
+    d.mat(solve_linear_ldlt(s.Jsp_sing, s.dsp, s.rsp, lam, dphi));  // lambda ~ 0: singular fallback path
+    d.mat(solve_linear_ldlt(Eigen::MatrixXd(s.Jsp_sing), s.dsp, s.rsp, std::max(lam, 1e-6)));
+    const auto [dx, l2] = solve_trust_region(s.Jsp, s.dsp, s.rsp, 1.0 + it % 3);
+    d.mat(dx);
+    d.num(l2);
+    cnt("trust_region_steps");
   }
 }
 
